@@ -7,6 +7,7 @@ invocation, against simbackend under detsched and returns an ExecResult; monitor
 """
 from __future__ import annotations
 
+import copy
 import json
 import math
 from typing import Any
@@ -40,7 +41,7 @@ from aws_durable_execution_sdk_python.config import (  # noqa: E402
 )
 from aws_durable_execution_sdk_python.execution import durable_execution  # noqa: E402
 from aws_durable_execution_sdk_python.retries import RetryDecision, RetryStrategyConfig, create_retry_strategy  # noqa: E402
-from aws_durable_execution_sdk_python.serdes import JsonSerDes  # noqa: E402
+from aws_durable_execution_sdk_python.serdes import JsonSerDes, SerDes  # noqa: E402
 from aws_durable_execution_sdk_python.waits import (  # noqa: E402
     WaitForConditionConfig,
     WaitForConditionDecision,
@@ -65,6 +66,23 @@ class OtherUserError(Exception):
 
 
 USER_ERRORS = {"UserError": UserError, "OtherUserError": OtherUserError, "ValueError": ValueError, "KeyError": KeyError}
+
+
+class FragileSerDes(SerDes):
+    """A user serializer with a schema check: faithful (tagged JSON) until the deployment changes at invocation
+    `break_inv`, after which payloads written earlier can no longer be read back."""
+
+    def __init__(self, run, break_inv):
+        self.run = run
+        self.break_inv = break_inv
+
+    def serialize(self, value, ctx):
+        return json.dumps({"schema": 1, "v": to_tagged(value)})
+
+    def deserialize(self, data, ctx):
+        if self.break_inv is not None and self.run.inv >= self.break_inv:
+            raise ValueError("payload written by schema 1 cannot be read by schema 2")
+        return from_tagged(json.loads(data)["v"])
 
 
 class LambdaCtx:
@@ -230,7 +248,8 @@ class Interp:
             run.obs.append(rec)
             self._write_ahead(path, kind, rec, e)
             raise
-        rec = {"path": path, "kind": kind, "inv": run.inv, "clk": run.clock(), "out": "value", "pre": pre, "value": v, "task": t.id if t else None}
+        rec = {"path": path, "kind": kind, "inv": run.inv, "clk": run.clock(), "out": "value", "pre": pre,
+               "value": copy.deepcopy(v) if kind == "step" else v, "task": t.id if t else None}
         run.obs.append(rec)
         self._write_ahead(path, kind, rec, None)
         return v
@@ -372,6 +391,14 @@ class Interp:
             return None
         raise ValueError(op)
 
+    def _serdes(self, st):
+        k = st.get("serdes")
+        if k == "json":
+            return JsonSerDes()
+        if k == "fragile":
+            return FragileSerDes(self.run, self.case.get("serdes_break"))
+        return None
+
     # -- step ------------------------------------------------------------------------
     def _retry_strategy(self, spec, path):
         if spec is None:
@@ -444,9 +471,18 @@ class Interp:
         cfg = StepConfig(
             retry_strategy=self._retry_strategy(st.get("retry", {"kind": "none"}), path),
             step_semantics=StepSemantics.AT_MOST_ONCE_PER_RETRY if st.get("sem") == "most" else StepSemantics.AT_LEAST_ONCE_PER_RETRY,
-            serdes=JsonSerDes() if st.get("serdes") == "json" else None,
+            serdes=self._serdes(st),
         )
-        return self.durable(path, "step", lambda: ctx.step(body, name=path, config=cfg))
+        v = self.durable(path, "step", lambda: ctx.step(body, name=path, config=cfg))
+        if st.get("mutate"):
+            # user code is free to edit a value it was handed (the recorded outcome must not change with it)
+            if isinstance(v, list):
+                v.append("local-edit")
+            elif isinstance(v, dict):
+                v["local-edit"] = True
+            elif isinstance(v, (set, bytearray)):
+                v.clear()
+        return v
 
     # -- child / batch ---------------------------------------------------------------
     def _child(self, st, ctx, path):
@@ -473,7 +509,7 @@ class Interp:
         cfg = None
         if st.get("summary") or st.get("serdes"):
             cfg = ChildConfig(summary_generator=(lambda r: json.dumps({"summary": True})) if st.get("summary") else None,
-                              serdes=JsonSerDes() if st.get("serdes") == "json" else None)
+                              serdes=self._serdes(st))
         return self.durable(path, "child", lambda: ctx.run_in_child_context(fn, name=path, config=cfg))
 
     def _completion(self, c):
@@ -536,7 +572,7 @@ class Interp:
         if not (st.get("timeout") or st.get("heartbeat") or extra or st.get("serdes")):
             return None
         return cls(timeout=Duration(seconds=st.get("timeout", 0)), heartbeat_timeout=Duration(seconds=st.get("heartbeat", 0)),
-                   serdes=JsonSerDes() if st.get("serdes") == "json" else None, **extra)
+                   serdes=self._serdes(st), **extra)
 
     def _callback(self, st, ctx, path):
         run = self.run
@@ -627,9 +663,18 @@ class Interp:
             finally:
                 self.exit_user(key)
 
+        until = st.get("until")
+
+        def measure(x):
+            return len(x) if isinstance(x, (list, dict, tuple)) else x if isinstance(x, int) else 0
+
         def strategy(state, attempt):
             i = min(attempt - 1, len(decisions) - 1)
             d = decisions[i] if attempt - 1 < len(decisions) else ["stop"]
+            if until is not None:
+                # a purely state-based user strategy: polls until the accumulated state is large enough
+                conts = [x for x in decisions if x[0] == "continue"] or [["continue", 1]]
+                d = ["stop"] if measure(state) >= until else conts[measure(state) % len(conts)]
             run.strategy_calls.append({"path": path, "inv": run.inv, "clk": run.clock(), "attempts_made": attempt, "wfc": True,
                                        "state": to_tagged(state), "decision": d})
             if run.polls and run.polls[-1]["path"] == path:
@@ -637,6 +682,8 @@ class Interp:
                 run.polls[-1]["decision"] = d
             if d[0] == "stop":
                 return WaitForConditionDecision.stop_polling()
+            if st.get("direct"):
+                return WaitForConditionDecision(should_continue=True, delay=Duration(seconds=d[1]))
             return WaitForConditionDecision.continue_waiting(Duration(seconds=d[1]))
 
         if st.get("packaged"):
@@ -658,7 +705,7 @@ class Interp:
                     return WaitForConditionDecision.continue_waiting(d.delay)
                 return WaitForConditionDecision.stop_polling()
 
-        cfg = WaitForConditionConfig(wait_strategy=strategy, initial_state=init, serdes=JsonSerDes() if st.get("serdes") == "json" else None)
+        cfg = WaitForConditionConfig(wait_strategy=strategy, initial_state=init, serdes=self._serdes(st))
         return self.durable(path, "wfcond", lambda: ctx.wait_for_condition(check, cfg, name=path))
 
     # -- log / try -------------------------------------------------------------------
@@ -711,7 +758,7 @@ def count_ops(prog) -> int:
                 r = st.get("retry") or {}
                 n += (r.get("max", 0) or (r.get("cfg") or {}).get("max_attempts", 0))
             if st["op"] == "wfcond":
-                n += len(st.get("decisions", ())) + 2 + ((st.get("packaged") or {}).get("max_attempts", 0))
+                n += len(st.get("decisions", ())) + 2 + ((st.get("packaged") or {}).get("max_attempts", 0)) + (st.get("until") or 0)
             for k in ("body", "between", "handler"):
                 if isinstance(st.get(k), list):
                     walk(st[k])
